@@ -173,30 +173,26 @@ Print Assumptions C13_distance_zero_iff_partial.
 
 (** ** No panic *)
 
-(** PARTIAL.  Missing for the unconditional statement (each is refuted below):
-    (1) every parsed (offset,length) range of a recorded event handed to the explainer is
-        read after fewer chunk-making ranges than the paired measurement has references
-        ([index_safe]: a range makes a chunk when its length is not 0, or - possibly - when
-        the measurement has a hard-coded reference; EMPTY ranges over image references do
-        not count, so the list may be longer than the reference list) (D20);
-    (2) a paired simulated event has a measurement whenever TXT registers are present and
-        the digests differ (startup-locality entries have none);
-    (3) those ranges lie inside the image.
-    [safe_entry] is exactly (digests equal) or ((2) and (PCR0_DATA entry or ((1) and (3)))).
-    Also assumed: the simulated side is well-formed (alignLogAndMeasurements accepts it,
-    digests have the bank's size) and the bitmaps have the lengths of the lists. *)
-Theorem C13_no_panic_partial :
+(** No recorded log makes the comparison panic: for EVERY recorded log (any entries, any
+    event data, any digests), bank, settings, GOMAXPROCS, hash function, with or without TXT
+    registers.  The remaining hypotheses say nothing about the recorded log: the simulated
+    side is one alignLogAndMeasurements accepts and its digests have the bank's size (what
+    a simulated TPM produces), and the bitmaps of the unmodelled search have the lengths of
+    the two lists (one [make] each in the Go code).
+    Before the repairs e99f02a, 60718db, dbffb11 this needed three more conditions on the
+    recorded log, each refuted by a witness (findings C13-D20-rangesToChunks-index,
+    C13-nil-measurement-deref, C13-range-beyond-image); those witnesses are the Examples
+    below. *)
+Theorem C13_no_panic :
   forall (Hp : meas -> Z -> list Z) P isz regs cmds evlog recorded alg st oracle sims,
   sim_align cmds evlog 0 alg = Ok sims ->
   (forall size, hash_size alg = Some size ->
      Forall (fun c => Z.of_nat (length (s_digest c)) = size) (map snd sims)) ->
   (forall log es, recorded = Some log -> filterEvents log 0 alg = Ok es ->
      length (fst oracle) = length es /\ length (snd oracle) = length sims) ->
-  (forall log es ps, recorded = Some log -> filterEvents log 0 alg = Ok es ->
-     align_logs es (map snd sims) oracle = Ok ps -> Forall (safe_entry regs isz) (attach sims ps)) ->
   reproduce Hp P isz regs cmds evlog recorded alg st oracle <> Panic.
-Proof. exact no_panic_partial. Qed.
-Print Assumptions C13_no_panic_partial.
+Proof. exact no_panic. Qed.
+Print Assumptions C13_no_panic.
 
 (** the hypotheses are satisfiable by an input that does reach the explainer *)
 Example C13_no_panic_example :
@@ -204,35 +200,50 @@ Example C13_no_panic_example :
              = Ok (rs, [IMismatch 0], None) /\ map re_status rs = [StMismatch].
 Proof. exact witness_one_pair_ok. Qed.
 
-(** ... also by one whose event data holds MORE pairs than the measurement has references
-    (one real pair and two empty ones, the empty ones read first, one reference): its
-    ranges satisfy (1) and (3), and the entry is reported as a plain mismatch *)
-Example C13_no_panic_empty_pairs_example :
-  (forall p, parse_event_data (mkEv 0 EV_POST_CODE (w_one_pair ++ w_empty_pair ++ w_empty_pair) (Some (mkDg 4 (w_dg 2)))) w_isz = Ok p ->
-     (length (pr_ranges p) > length (m_refs w_meas))%nat /\
-     index_safe (m_refs w_meas) (pr_ranges p) /\ Forall (range_readable w_isz) (pr_ranges p)) /\
-  exists rs, reproduce w_hp 4 w_isz false w_cmds w_evlog (Some w_log_real_empty_empty) 4 w_st ([false], [false])
-             = Ok (rs, [IMismatch 0], None) /\ map re_status rs = [StMismatch].
-Proof. split; [exact witness_empty_pairs_safe|exact witness_empty_pairs_ok]. Qed.
+(** The loop of ReproduceEventLog itself: no aligned entry whatsoever makes it panic (no
+    condition on measurements, event data or registers). *)
+Theorem C13_result_loop_no_panic :
+  forall (Hp : meas -> Z -> list Z) P isz regs st l idx upd0,
+  result_loop Hp P isz regs st idx l upd0 <> Panic.
+Proof. exact result_loop_no_panic. Qed.
+Print Assumptions C13_result_loop_no_panic.
 
-(** (1) is implied by the plain count "not more ranges than references" ... *)
-Theorem C13_index_safe_of_length :
-  forall refs ranges, (length ranges <= length refs)%nat -> index_safe refs ranges.
-Proof. exact index_safe_of_length. Qed.
-Print Assumptions C13_index_safe_of_length.
+(** The analysis of a recorded entry (newLogEntryExplainer: reference look-up of
+    rangesToChunks, range reads of tryMeasurement) never panics: for every image size,
+    every measurement or none, every event. *)
+Theorem C13_explainer_no_panic :
+  forall isz m e, explain isz m e <> Panic.
+Proof. exact explain_no_panic. Qed.
+Print Assumptions C13_explainer_no_panic.
 
-(** ... and is EXACT for a measurement of image ranges only (no hard-coded reference, as
-    the firmware-volume measurements are): rangesToChunks panics on its reference look-up
-    iff some range of the list comes after at least as many NON-EMPTY ranges as the
-    measurement has references - whatever the number of empty ranges, wherever they are. *)
-Theorem C13_explainer_index_panic_iff :
-  forall isz mm ranges,
-  has_raw (m_refs mm) = false ->
-  (ranges_to_chunks isz (Some mm) ranges [] = Panic <->
-   exists pre r post, ranges = pre ++ r :: post /\
-     (length (m_refs mm) <= length (filter nonempty pre))%nat).
-Proof. exact ranges_to_chunks_panic_iff. Qed.
-Print Assumptions C13_explainer_index_panic_iff.
+(** every chunk rangesToChunks makes can be read from the image (Reference.RawBytes does
+    not panic on it), for all (offset, length) pairs and all reference lists *)
+Theorem C13_explainer_chunks_readable :
+  forall isz m ranges,
+  forallb (chunk_readable isz) (ranges_to_chunks isz m ranges []) = true.
+Proof. intros. apply ranges_to_chunks_readable. reflexivity. Qed.
+Print Assumptions C13_explainer_chunks_readable.
+
+(** ... and which chunks these are, for a measurement of image ranges only (no hard-coded
+    reference, as the firmware-volume measurements are) or no measurement: one image chunk
+    per pair that has a length and fits the image, in the order read - whatever the number
+    of pairs and of references (replaces the pre-repair C13_explainer_index_panic_iff,
+    which gave the exact panic condition of the look-up). *)
+Theorem C13_explainer_chunks_image_only :
+  forall isz m ranges,
+  match m with Some mm => has_raw (m_refs mm) = false | None => True end ->
+  ranges_to_chunks isz m ranges [] = map (image_chunk isz) (filter (kept isz) ranges).
+Proof. exact ranges_to_chunks_image_only. Qed.
+Print Assumptions C13_explainer_chunks_image_only.
+
+(** the test of rangesToChunks skips exactly the unreadable ranges: a pair (of a length
+    >= 0, at a non-negative image offset) is kept iff Reference.RawBytes can read it *)
+Theorem C13_range_kept_iff_readable :
+  forall isz phys off len,
+  0 <= len -> 0 <= image_offset isz phys off ->
+  (range_fits isz phys off len = true <-> chunk_readable isz (ChImage phys off len) = true).
+Proof. exact range_fits_iff_readable. Qed.
+Print Assumptions C13_range_kept_iff_readable.
 
 (** a readable range in plain arithmetic: it ends at or below 4 GiB *)
 Theorem C13_range_readable_iff :
@@ -242,52 +253,49 @@ Theorem C13_range_readable_iff :
 Proof. exact range_readable_iff. Qed.
 Print Assumptions C13_range_readable_iff.
 
-(** REFUTED (finding C13-D20-rangesToChunks-index): a recorded EV_POST_CODE entry with a
-    wrong digest and TWO (length,offset) pairs in its data, paired with a measurement of
-    ONE reference, panics (References[1] of 1). *)
-Theorem C13_no_panic_refuted :
-  exists Hp P isz regs cmds evlog log alg st oracle,
-    reproduce Hp P isz regs cmds evlog (Some log) alg st oracle = Panic.
-Proof.
-  exists w_hp, 4, w_isz, false, w_cmds, w_evlog, w_log_d20, 4, w_st, ([false], [false]). exact witness_d20.
-Qed.
-Print Assumptions C13_no_panic_refuted.
+(** The inputs of the repaired defects, on the model of the repaired code.
+    D20 (was C13_no_panic_refuted): a recorded EV_POST_CODE entry with a wrong digest and
+    TWO (length,offset) pairs in its data, paired with a measurement of ONE reference, is a
+    plain mismatch; both ranges become chunks. *)
+Example C13_d20_input_reported :
+  (exists rs, reproduce w_hp 4 w_isz false w_cmds w_evlog (Some w_log_d20) 4 w_st ([false], [false])
+              = Ok (rs, [IMismatch 0], None) /\ map re_status rs = [StMismatch]) /\
+  (forall p, parse_event_data (mkEv 0 EV_POST_CODE w_two_pairs (Some (mkDg 4 (w_dg 2)))) w_isz = Ok p ->
+     (length (pr_ranges p) > length (m_refs w_meas))%nat /\
+     ranges_to_chunks w_isz (Some w_meas) (pr_ranges p) [] =
+       [ChImage true 4294905856 16; ChImage true 4294901760 16]).
+Proof. split; [exact witness_d20|exact witness_d20_chunks]. Qed.
 
-(** REFUTED (same finding): the second pair need not have a length - an EMPTY pair stored
-    before a real one (so read after it) is looked up at References[1] of 1 as well, while
-    the same two pairs in the other order are fine (C13_no_panic_empty_pairs_example). *)
-Theorem C13_no_panic_empty_pair_refuted :
-  reproduce w_hp 4 w_isz false w_cmds w_evlog (Some w_log_empty_real) 4 w_st ([false], [false]) = Panic.
-Proof. exact witness_empty_after_real. Qed.
-Print Assumptions C13_no_panic_empty_pair_refuted.
+(** (was C13_no_panic_empty_pair_refuted / C13_no_panic_empty_pairs_example) empty pairs
+    before or after a real one, more pairs than references: plain mismatches *)
+Example C13_empty_pairs_reported :
+  (exists rs, reproduce w_hp 4 w_isz false w_cmds w_evlog (Some w_log_empty_real) 4 w_st ([false], [false])
+              = Ok (rs, [IMismatch 0], None) /\ map re_status rs = [StMismatch]) /\
+  (exists rs, reproduce w_hp 4 w_isz false w_cmds w_evlog (Some w_log_real_empty_empty) 4 w_st ([false], [false])
+              = Ok (rs, [IMismatch 0], None) /\ map re_status rs = [StMismatch]).
+Proof. split; [exact witness_empty_after_real|exact witness_empty_pairs_ok]. Qed.
 
-(** REFUTED (finding C13-nil-measurement-deref): with TXT registers present, a recorded
-    startup-locality entry whose digest differs from the simulated one panics (the
-    simulated entry has no measurement; isPCRxDataMeasurement dereferences nil). *)
-Theorem C13_no_panic_nil_measurement_refuted :
-  exists Hp P isz cmds evlog log alg st oracle,
-    reproduce Hp P isz true cmds evlog (Some log) alg st oracle = Panic /\
-    reproduce Hp P isz false cmds evlog (Some log) alg st oracle <> Panic.
-Proof.
-  exists w_hp, 4, w_isz, w_cmds_loc, w_evlog_loc, w_log_loc, 4, w_st, ([false], [false]).
-  split; [exact witness_nil_measurement|].
-  destruct witness_nil_measurement_no_regs as [rs E]. rewrite E. discriminate.
-Qed.
-Print Assumptions C13_no_panic_nil_measurement_refuted.
+(** (was C13_no_panic_nil_measurement_refuted) a recorded startup-locality entry whose
+    digest differs from the simulated one, which has no measurement: a mismatch without a
+    measurement, with and without TXT registers *)
+Example C13_nil_measurement_reported :
+  exists rs, (forall regs, reproduce w_hp 4 w_isz regs w_cmds_loc w_evlog_loc (Some w_log_loc) 4 w_st ([false], [false])
+                           = Ok (rs, [IMismatch 0], None)) /\
+             map re_status rs = [StMismatch] /\ map re_meas rs = [None].
+Proof. exact witness_nil_measurement. Qed.
 
-(** REFUTED (finding C13-range-beyond-image): event data with one valid-looking pair whose
-    range reaches past the image end panics in Reference.RawBytes — for a mismatching
-    entry and for an unexpected (inserted) one. *)
-Theorem C13_no_panic_range_refuted :
-  exists Hp P isz regs cmds evlog alg st,
-    (exists log oracle, reproduce Hp P isz regs cmds evlog (Some log) alg st oracle = Panic /\ count_true (fst oracle) = O) /\
-    (exists log oracle, reproduce Hp P isz regs cmds evlog (Some log) alg st oracle = Panic /\ count_true (fst oracle) = 1%nat).
-Proof.
-  exists w_hp, 4, w_isz, false, w_cmds, w_evlog, 4, w_st. split.
-  - exists w_log_range, ([false], [false]). split; [exact witness_range|reflexivity].
-  - exists w_log_range_ins, ([true; false], [false]). split; [exact witness_range_unexpected|reflexivity].
-Qed.
-Print Assumptions C13_no_panic_range_refuted.
+(** (was C13_no_panic_range_refuted) event data with one valid-looking pair whose range
+    reaches past the image end: the range is not readable, no chunk is made, and the entry
+    is reported - as a mismatching entry and as an unexpected (inserted) one *)
+Example C13_range_input_reported :
+  (exists rs, reproduce w_hp 4 w_isz false w_cmds w_evlog (Some w_log_range) 4 w_st ([false], [false])
+              = Ok (rs, [IMismatch 0], None) /\ map re_status rs = [StMismatch]) /\
+  (exists rs, reproduce w_hp 4 w_isz false w_cmds w_evlog (Some w_log_range_ins) 4 w_st ([true; false], [false])
+              = Ok (rs, [IUnexpected 0], None) /\ map re_status rs = [StUnexpected; StMatch]) /\
+  (forall p, parse_event_data (mkEv 0 EV_POST_CODE w_past_end (Some (mkDg 4 (w_dg 2)))) w_isz = Ok p ->
+     pr_ranges p = [(4294967280, 32)] /\ ~ range_readable w_isz (4294967280, 32) /\
+     ranges_to_chunks w_isz (Some w_meas) (pr_ranges p) [] = []).
+Proof. split; [exact witness_range|split; [exact witness_range_unexpected|exact witness_range_skipped]]. Qed.
 
 (** ** CombineAsEventLog *)
 
